@@ -9,3 +9,4 @@ open AC.Props.C08
 #print axioms C08_src_halving
 #print axioms C08_src_deltaLargest
 #print axioms C08_src_strategies
+#print axioms C08_src_approximation
